@@ -12,7 +12,9 @@ from concurrent.futures import ThreadPoolExecutor
 
 VERIF = os.path.dirname(os.path.dirname(os.path.abspath(__file__)))
 REPO = os.environ.get("VERIF_REPO", "/repo")
-BUILD = os.path.join(VERIF, "build")
+BUILD = os.environ.get("VERIF_BUILD", os.path.join(VERIF, "build"))
+EVDIR = os.environ.get("VERIF_EVIDENCE_DIR", os.path.join(VERIF, "evidence"))
+RPDIR = os.environ.get("VERIF_REPLAY_DIR", os.path.join(VERIF, "replays"))
 HARNESS = os.path.join(VERIF, "harness")
 MODPATH = "github.com/relab/hotstuff"
 NCPU = int(os.environ.get("VERIF_JOBS", str(os.cpu_count() or 4)))
@@ -254,7 +256,7 @@ def run_property(pid, tier, seed):
     outdir = os.path.join(BUILD, "out", pid)
     shutil.rmtree(outdir, ignore_errors=True)
     os.makedirs(outdir, exist_ok=True)
-    evpath = os.path.join(VERIF, "evidence", pid + ".json")
+    evpath = os.path.join(EVDIR, pid + ".json")
     os.makedirs(os.path.dirname(evpath), exist_ok=True)
 
     parts = [p for p in spec["parts"] if tier in p.get("tiers", ("quick", "thorough"))]
@@ -435,7 +437,7 @@ def run_property(pid, tier, seed):
     for k in sorted(known_hit):
         print("KNOWN-FINDING: property=%s %s" % (pid, known_hit[k]["text"]))
     if new_viol:
-        rdir = os.path.join(VERIF, "replays", pid)
+        rdir = os.path.join(RPDIR, pid)
         os.makedirs(rdir, exist_ok=True)
         seen = set()
         for v in new_viol:
